@@ -638,6 +638,9 @@ func (g *gen) next() HOp {
 			op.Verifier = v
 		}
 		op.HasRequestURI = r.Chance(4)
+		if r.Chance(35) {
+			op.Mode = Pick(r, []string{"form_post", "fragment", "query"})
+		}
 		return op
 	case pick(p.WAuthorizePAR):
 		i := g.pickTok("par", func(t *gTok) bool { return !t.used || r.Chance(25) })
@@ -658,6 +661,9 @@ func (g *gen) next() HOp {
 			if r.Chance(30) { // conflicting query parameters
 				op.Redirect = "https://evil.example/cb"
 				op.Scopes = []string{"admin", "photos"}
+			}
+			if r.Chance(25) {
+				op.Mode = Pick(r, []string{"form_post", "fragment", "query"})
 			}
 			if r.Chance(25) || (t.verifier != "" && r.Chance(40)) {
 				// PKCE parameters in the query next to the request_uri (the pushed ones, if any, are authoritative)
